@@ -66,6 +66,10 @@ SCENARIOS = {
     'return': dict(
         src='<dtml-try><dtml-in seq><dtml-if expr="x == 2"><dtml-try><dtml-return expr="(a, o.p, x + a)"><dtml-finally>'
             '<dtml-var a></dtml-try></dtml-if></dtml-in><dtml-finally><dtml-call "seq.append(a)"><dtml-var w></dtml-try>'),
+    # var tags with several options each (whatever a tag prepares for its options is prepared before it is shared)
+    'modifiers': dict(
+        src='<dtml-var who html_quote upper spacify size=30 etc="~"><dtml-in seq><dtml-var x url_quote lower thousands_commas>,'
+            '</dtml-in><dtml-var who null=n newline_to_br sql_quote>&dtml.upper.url_quote_plus-who;'),
     # the client object of the call: reached by name and as _.this
     'client': dict(
         src='<dtml-var p>/<dtml-var expr="_.this.p"><dtml-in seq><dtml-var expr="_.this.p + _.str(x)"></dtml-in>'
@@ -78,7 +82,7 @@ SCENARIOS = {
 def namespace(name, i):
     seq = [O(x=1, y=3, w=i), O(x=2, y=2, w=0), O(x=3, y=1, w=i)]
     ns = {'seq': seq, 'key': 'x' if i % 2 == 0 else 'y', 'rev': i % 2 == 0, 'a': i, 'o': O(p='p%d' % i), 'st': 1 + i % 2,
-          'emp': [], 'w': i}
+          'emp': [], 'w': i, 'who': 'bob_&_%s\n\'%d\'' % ('ab'[i % 2], i)}
     if name == 'batch':
         ns['seq'] = ['ab%d' % i, 'cd%d' % i, 'ef%d' % i]
         ns['seq'] = [s for s in ns['seq']]
